@@ -43,10 +43,16 @@ def _on_alarm(signum, frame):
     raise _Timeout()
 
 
-def call_target(target: str, platform: str, text: str):
+GROUP_BY = ["= ", "*** ", "+++ ", "[", "(", ")", "\\", ".*", "a|b", " ", "?", "{2}", "remark", "=== ", "#", "$", "^x"]
+
+
+def call_target(target: str, platform: str, text: str, group_by: str = ""):
     import cisco_acl as C
 
     fn = getattr(C, target)
+    if group_by and target in ("Acl", "acls", "aces"):
+        # the marker that starts a group heading is free text too
+        return fn(text, platform=platform, group_by=group_by)
     if target == "Port":
         return fn(text, platform=platform, protocol="tcp")
     if target in ("acls", "aces", "addrgroups"):
@@ -144,12 +150,15 @@ def judge(case) -> Verdict:
     target, platform, text = case["target"], case["platform"], case["text"]
     if target not in TARGETS or platform not in ("ios", "nxos", "asa") or not isinstance(text, str):
         raise Invalid()
+    group_by = case.get("group_by") or ""
+    if not isinstance(group_by, str) or len(group_by) > 20 or "\n" in group_by:
+        raise Invalid()
     v = Verdict()
-    res = guarded_call(call_target, target, platform, text)
+    res = guarded_call(call_target, target, platform, text, group_by)
     ntok = len(text.split())
     v.label(target, platform)
     if res[0] == "hang":
-        again = [guarded_call(call_target, target, platform, text)[0] for _ in range(3)]
+        again = [guarded_call(call_target, target, platform, text, group_by)[0] for _ in range(3)]
         if all(a == "hang" for a in again):
             v.fail(f"hang:{target}", {"text": text[:200], "len": len(text), "platform": platform})
         return v
@@ -192,7 +201,7 @@ def vocabulary():
         words.discard("")
         extra = ["permit", "deny", "remark", "ip", "tcp", "udp", "icmp", "any", "host", "eq", "neq", "lt", "gt", "range",
                  "log", "log-input", "established", "ack", "syn", "object-group", "addrgroup", "group-object",
-                 "ip access-list", "ip access-list extended", "ip access-list standard", "object-group network",
+                 "ip access-list", "ip access-list extended", "ip access-list standard", "access-list", "access-list 101", "object-group network",
                  "object-group ip address", "interface", "ip access-group", "in", "out", "description", "statistics",
                  "_config_", "END_OF_CONFIG", "!", "0", "1", "10", "255", "256", "65535", "65536", "4294967295",
                  "4294967296", "-1", "1.1.1.1", "10.0.0.0", "0.0.0.255", "255.255.255.0", "0.0.0.0", "255.255.255.255",
@@ -245,6 +254,12 @@ for _t in ("acls", "aces", "addrgroups"):
 VALID["Ace"] += ["permit tcp any any eq 135", "permit tcp any eq 15001 any eq 15002 log", "permit udp any any eq 521",
                  "permit tcp any eq 3949 any eq 514", "permit udp any eq 514 any range 135 15001"]
 VALID["Port"] += ["eq 135", "eq 15001 15002", "range 514 3949"]
+# classic numbered lists and other lines that start like a header
+CONFIG4 = ("access-list 101 permit ip any any\naccess-list 101\naccess-list compiled\naccess-list 10 permit host 1.1.1.1\n"
+           "ip access-list extended 101\n permit ip any any\nip access-list\nip access-list extended\naccess-list\n"
+           "interface Ethernet1\n ip access-group 101 in\n")
+for _t in ("acls", "aces", "addrgroups"):
+    VALID[_t].append(CONFIG4)
 
 
 @st.composite
@@ -301,7 +316,15 @@ def soup_st(draw, tier):
         if draw(st.integers(0, 5)) == 0:
             lines = draw(st.permutations(lines))
         text = "\n".join(lines)
-    return {"target": target, "platform": platform, "text": text}
+    case = {"target": target, "platform": platform, "text": text}
+    if target in ("Acl", "acls", "aces") and draw(st.sampled_from(range(4))) == 1:
+        case["group_by"] = draw(st.one_of(st.sampled_from(GROUP_BY), st.text(alphabet=G.REMARK_ALPHABET + " \\^$", min_size=1, max_size=4)))
+        if draw(st.booleans()) and "\n" in text:
+            # a remark that starts with the marker, so that the marker is actually used
+            lines = text.split("\n")
+            lines.insert(draw(st.integers(1, len(lines))), " remark " + case["group_by"] + "WEB")
+            case["text"] = "\n".join(lines)
+    return case
 
 
 # --------------------------------------------------------------------------------------- size extremes
